@@ -361,6 +361,17 @@ func (l *Lexer) readBlockString(tok *token.Token) {
 			quoteCount = 0
 			whitespaceCount++
 		case runes.EOF:
+			if l.input.InputPosition < l.input.Length {
+				// a NUL byte inside the string, not the end of the input: a character like any other
+				if !reachedFirstNonWhitespace {
+					reachedFirstNonWhitespace = true
+					leadingWhitespaceToken = whitespaceCount
+				}
+				escaped = false
+				quoteCount = 0
+				whitespaceCount = 0
+				continue
+			}
 			tok.SetEnd(l.input.InputPosition, l.input.TextPosition)
 			tok.Literal.Start += uint32(leadingWhitespaceToken)
 			tok.Literal.End -= uint32(whitespaceCount)
@@ -410,6 +421,11 @@ func (l *Lexer) readSingleLineString(tok *token.Token) {
 		case runes.SPACE, runes.TAB:
 			escaped = false
 		case runes.EOF:
+			if l.input.InputPosition < l.input.Length {
+				// a NUL byte inside the string, not the end of the input: a character like any other
+				escaped = false
+				continue
+			}
 			tok.SetEnd(l.input.InputPosition, l.input.TextPosition)
 			return
 		case runes.QUOTE, runes.CARRIAGERETURN, runes.LINETERMINATOR:
